@@ -125,3 +125,19 @@ package service
 //@   loop 1:
 //@     invariant len(*d.D) == old(len(*d.D)) + rangeindex + 1 && rangeindex + 1 <= len(date)
 //@     modifies *d.D
+
+// The round-robin front of the insert workers picks a worker by a random number in
+// [0, 1) scaled by the length of the list it then indexes: the index is inside that
+// list for every draw and every mix of inserting / idle workers. This call runs in the
+// pusher goroutine of doPush, which has no recover - an index out of range here ends
+// the process and leaves every push in flight without an answer.
+//@ iface (IInsertServiceV2).GetState(insertMode)
+//@   modifies nothing
+//@ func (*InsertServiceV2).GetState [C01]
+//@   modifies nothing
+//@ func (*InsertServiceV2RoundRobin).Request [C01,C05]
+//@   flag checks=-assert
+//@   requires has-workers: len(svc.services) > 0
+//@   modifies everything
+//@   loop 1:
+//@     modifies nothing
